@@ -42,6 +42,9 @@ def run(ctx):
         if nm not in name2eval:
             ctx.missing("R2", "dispatch of function name `%s`" % nm)
     # ---- R1 ----------------------------------------------------------------
+    # private helpers of the evaluators (a shared fold wrapper, ..) are walked into; the number collectors stay calls
+    import inline as _inl
+    pol = _inl.helpers(prog, keep=("get_numbers", "get_floats", "get_integers"))
     n_branches = 0
     for nm, evp in sorted(name2eval.items()):
         if nm not in WANT:
@@ -52,7 +55,7 @@ def run(ctx):
             continue
         ctx.fn(F)
         want_op, want_init = WANT[nm]
-        ps = Walker(F, max_visits=2).paths()
+        ps = Walker(F, max_visits=2, inline=pol).paths()
         ctx.stats["paths_walked"] += len(ps)
         for p in ps:
             if p.end != "return":
